@@ -9,15 +9,15 @@ CONSTANTS
   DerivedUpd <- DerivedNewer
   KnownGaps = {}
   LS = {}
-  MSV = {"M1"}
-  MSI = {"MNone"}
+  MSV = {"M1", "M4"}
+  MSI = {"MBadEmpty", "MNone"}
   Cmts = {"c1", "big"}
-  StartOffs = {2, 3, 4}
+  StartOffs = {0, 2, 4}
   EndOffs = {0, 2, 4}
   PoolIds = {}
-  Vias = {"lib"}
-  Ops = {"set", "expire", "gc"}
+  Vias = {"lib", "api"}
+  Ops = {"set", "expire", "gc", "restart"}
 VIEW View
 INVARIANTS IndexOK
-PROPERTIES RejectedChangesNothing CountLimit FreshIds NeverOlder
+PROPERTIES IdsStable ExpiredForever NoGCOfLive KeptForRetention FreshIds NeverStartsInPast RejectedChangesNothing CountLimit NeverOlder
 CHECK_DEADLOCK FALSE
